@@ -96,6 +96,8 @@ class World:
         self.rpc_seq = 0
         self.task_request = {}
         self.hash_fault_hook = None
+        self.serve_config = None
+        self.pending_capture = None
 
     def hash_fault_for(self, worker):
         if self.hash_fault_hook is None:
@@ -271,6 +273,8 @@ class World:
         res.log_end = len(self.log)
         res.ncommits = self.commit_no - commits0
         res.error_records = cap.records
+        for m in self.monitors:
+            m.on_build_end(self, res)
         return res
 
     def _tick_hook(self, loop):
